@@ -226,14 +226,25 @@ func (tp *TableParser) parseRow(row tableRowXML) ParsedTableRow {
 		parsed.Height = parseTwips(row.Properties.Height.Val)
 	}
 
-	// Parse cells
+	// Parse cells; the spans of one row together stay within the column limit
+	width := 0
 	for _, cell := range row.Cells {
 		parsedCell := tp.parseCell(cell)
+		if width+parsedCell.ColSpan > maxTableColumns {
+			parsedCell.ColSpan = 1
+		}
+		width += parsedCell.ColSpan
 		parsed.Cells = append(parsed.Cells, parsedCell)
 	}
 
 	return parsed
 }
+
+// maxTableColumns limits the gridSpan read from the document. The span sizes the column
+// bookkeeping and the rendered rows, so an absurd value (a 20-byte attribute asking for two
+// billion columns) must not be taken at face value; larger values are ignored like other
+// invalid values. The limit is that of a spreadsheet grid.
+const maxTableColumns = 16384
 
 // parseCell parses a table cell.
 func (tp *TableParser) parseCell(cell tableCellXML) ParsedTableCell {
@@ -246,7 +257,7 @@ func (tp *TableParser) parseCell(cell tableCellXML) ParsedTableCell {
 
 	// Parse column span (gridSpan)
 	if props.GridSpan.Val != "" {
-		if span, err := strconv.Atoi(props.GridSpan.Val); err == nil && span > 0 {
+		if span, err := strconv.Atoi(props.GridSpan.Val); err == nil && span > 0 && span <= maxTableColumns {
 			parsed.ColSpan = span
 		}
 	}
